@@ -29,7 +29,7 @@ for d in sorted(glob.glob("/verif/seeded/*/")):
     if not needs:
         needs = [l.strip("-* ").strip() for l in lines if re.search(r"\bneeds?\b", l, re.I)][:4]
     needs = [n[:400] for n in needs]
-    prop = sid.split("-")[0].replace("R2_", "").replace("R3_", "").replace("R4_", "").replace("R5_", "").replace("R6_", "")
+    prop = sid.split("-")[0].replace("R2_", "").replace("R3_", "").replace("R4_", "").replace("R5_", "").replace("R6_", "").replace("R7_", "")
     m = mx.get(sid, {})
     demos = sorted(os.path.basename(x) for x in glob.glob(d + "*.rs") + glob.glob(d + "*.sh"))
     mode = c.get("mode", "debug")
